@@ -29,6 +29,8 @@ func runC20(c *core.Ctx) {
 	c.RuleDoc("R20.8", "error-type comparisons assert the error's own dynamic type (no errors.As)")
 	c.RuleDoc("R20.9", "goroutines started in a loop are awaited after the loop")
 	c.RuleDoc("R20.11", "the suite never sorts a by-name listing before asserting on it")
+	c.RuleDoc("R20.14", "the tree comparison walks the file system under test on every path")
+	c.RuleDoc("R20.15", "every TestFile<Op> scenario calls <Op> on a file handle")
 	c.RuleDoc("R20.13", "a subset assertion between two observed listings is made in both directions")
 	c.RuleDoc("R20.12", "errors.Is matches the observed error against the expected one, never both ways")
 	c.RuleDoc("R20.10", "an operation's error that is asserted on some paths of a subtest is asserted on all")
@@ -52,6 +54,8 @@ func runC20(c *core.Ctx) {
 		r20NoNormalisedObservation(c, p)
 		r20ErrorsIsDirection(c, p)
 		r20SubsetBothWays(c, p)
+		r20WalkOnEveryPath(c, p)
+		r20FileScenarioCallsFileMethod(c, p)
 		r20ErrorAssertedOnEveryPath(c, p)
 	}
 	c.Floor("R20.1", 30)
@@ -67,6 +71,8 @@ func runC20(c *core.Ctx) {
 	c.Floor("R20.11", 2)
 	c.Floor("R20.12", 3)
 	c.Floor("R20.13", 1)
+	c.Floor("R20.14", 1)
+	c.Floor("R20.15", 8)
 }
 
 func r20Registered(c *core.Ctx, p *load.Program, pk *ssa.Package) {
@@ -945,4 +951,119 @@ func r20SubsetBothWays(c *core.Ctx, p *load.Program) {
 	if n == 0 {
 		c.Hard("anchor: subset assertions between two observed listings in fstest")
 	}
+}
+
+// r20WalkOnEveryPath (R20.14): the tree comparison observes the file system under test on every path: every return of
+// tryAssertEqualFS is dominated by the call that walks it. The walk asserts on its own (listings succeed, every
+// entry's Info() succeeds, no path twice); a shortcut for an empty expectation skips the only tree check the
+// Remove/RemoveAll scenarios have, and a Remove that leaves a dangling entry passes.
+func r20WalkOnEveryPath(c *core.Ctx, p *load.Program) {
+	n := 0
+	for _, fn := range pkgFuncs(p, "fstest") {
+		if fn.Parent() != nil || fn.Name() != "tryAssertEqualFS" {
+			continue
+		}
+		var walk ssa.Instruction
+		ssax.Instrs(fn, func(ins ssa.Instruction) {
+			if cl, ok := ins.(*ssa.Call); ok {
+				if callee := ssax.StaticCallee(cl); callee != nil && strings.HasPrefix(callee.Name(), "walk") && p.InModule(callee) {
+					walk = ins
+				}
+			}
+		})
+		n++
+		key := fname(fn) + "|walk-dominates-every-return"
+		if walk == nil {
+			c.Bad("R20.14", key, p.Pos(fn.Pos()), fmt.Sprintf("%s no longer walks the file system under test", fname(fn)))
+			continue
+		}
+		bad := ""
+		for _, r := range ssax.Returns(fn) {
+			if !ssax.Dominates(walk, r) {
+				bad = p.Pos(r.Pos())
+			}
+		}
+		c.Check(bad == "", "R20.14", key, p.Pos(fn.Pos()), "every return follows the walk of the file system under test",
+			fmt.Sprintf("%s returns at %s without having walked the file system under test: the walk's own assertions (listings and Info() succeed, no path twice) are the only tree check after Remove/RemoveAll — a file system that leaves a dangling entry behind is accepted", fname(fn), bad))
+	}
+	if n == 0 {
+		c.Hard("anchor: fstest tryAssertEqualFS")
+	}
+}
+
+// r20FileScenarioCallsFileMethod (R20.15): every TestFile<Op> scenario function of the suite reaches a call of the
+// File-level operation it is named after — the method <Op> on a value of a File interface type, or the helper
+// <Op>File — in itself, its closures or the fstest functions it calls. Replacing the hand-written Open + file.Stat()
+// by the by-name helper Stat (which prefers StatFS) turns file.Stat into a second copy of fs.Stat: File.Stat() of
+// directories and nested paths is never called again.
+func r20FileScenarioCallsFileMethod(c *core.Ctx, p *load.Program) {
+	fileI := stdIface(p, "io/fs", "File")
+	if fileI == nil {
+		c.Hard("anchor: io/fs.File")
+		return
+	}
+	n := 0
+	for _, fn := range pkgFuncs(p, "fstest") {
+		if fn.Parent() != nil || !strings.HasPrefix(fn.Name(), "TestFile") || fn.Signature.Recv() != nil {
+			continue
+		}
+		op := strings.TrimPrefix(fn.Name(), "TestFile")
+		if op == "" || strings.HasPrefix(op, "Concurrent") {
+			continue
+		}
+		n++
+		found := false
+		seen := map[*ssa.Function]bool{}
+		var visit func(f *ssa.Function, d int)
+		visit = func(f *ssa.Function, d int) {
+			if f == nil || seen[f] || d > 4 || f.Blocks == nil || found {
+				return
+			}
+			seen[f] = true
+			ssax.InstrsDeep(f, func(_ *ssa.Function, ins ssa.Instruction) {
+				ci, ok := ins.(ssa.CallInstruction)
+				if !ok {
+					return
+				}
+				cc := ci.Common()
+				if cc.IsInvoke() && cc.Method.Name() == op {
+					if it, ok := cc.Value.Type().Underlying().(*types.Interface); ok && (types.Implements(cc.Value.Type(), fileI) || it.NumMethods() <= 3) {
+						if lookupMethod(it, "Open") == nil {
+							found = true
+						}
+					}
+				}
+				if callee := ssax.StaticCallee(ci); callee != nil {
+					if callee.Name() == op+"File" && pkgPathOf(callee) == mod {
+						found = true
+					}
+					if callee.Pkg != nil && callee.Pkg == fn.Pkg {
+						visit(callee, d+1)
+					}
+				}
+				// closures handed to fstest helpers (testStat(tb, o, func…))
+				for _, a := range cc.Args {
+					if mc, ok := a.(*ssa.MakeClosure); ok {
+						visit(mc.Fn.(*ssa.Function), d+1)
+					}
+				}
+			})
+		}
+		visit(fn, 0)
+		key := fname(fn) + "|calls-the-file-operation"
+		c.Check(found, "R20.15", key, p.Pos(fn.Pos()), "the scenario reaches File."+op+" (or the helper "+op+"File)",
+			fmt.Sprintf("%s never calls %s on a file handle (nor the helper %sFile): the scenario named after the File operation exercises something else — with the by-name helper (which prefers the file system's own method) the handle's %s of directories and nested paths is not called by any scenario, and a handle that answers wrongly is accepted", fname(fn), op, op, op))
+	}
+	if n < 8 {
+		c.Hard("anchor: TestFile<Op> scenario functions (found %d)", n)
+	}
+}
+
+func lookupMethod(it *types.Interface, name string) *types.Func {
+	for i := 0; i < it.NumMethods(); i++ {
+		if it.Method(i).Name() == name {
+			return it.Method(i)
+		}
+	}
+	return nil
 }
